@@ -51,6 +51,25 @@ CHECKS["C01"] = {
     "note": "Trusted: rustc's layout computation and the documented repr(C)/repr(transparent) algorithms; typenum's USIZE recursion. Element types outside the lattice are covered by rule S only.",
 }
 
+CHECKS["C03"] = {
+    "technique": "per-operation ownership-linearity: symbolic tiling of duplicated/written pieces, closure position typestate (normal path), Drop-range extraction, finisher dominance, suppression-site inventory",
+    "text": "Static analysis (MIR, lengths symbolic): 'exactly once over all histories' is reduced to ownership-linearity of each operation, which composes over any chain by induction. Checked: (T) in each by-value sequence operation the pieces read out of the drop-suppressed source / written into the uninitialised output tile it exactly once; (P) every element-moving closure reads (writes) its slot exactly once and advances each owner position exactly once per invocation on every path, untracked readers exist only under needs_drop == false; (R) each tracked owner's Drop releases exactly [0,position) / [position,N) / [index,index_back) of its own storage and the storage field has no drop glue; (F) every finish/forget/assume_init of a builder or iterator is reached only where position == N is implied by the dominating facts or after a full traversal of the owner's storage by a protocol closure; (S) every ManuallyDrop::new / mem::forget of a value with element drop glue belongs to an accounted pattern; (A) the assume_init family reinterprets whole storage of equal symbolic size. Nothing is executed; destructor calls are not observed.",
+    "design_ref": "DESIGN.md §3 C03",
+    "note": TRUST + " Panic-free histories only (panics: C04, C05). Vec/Box interop is safe std code or C15's instances.",
+}
+CHECKS["C04"] = {
+    "technique": "unwind-window typestate over MIR: ownership state at every call that can run caller code; owner liveness on unwind edges through drop flags; foreign-call classification from resolved callees",
+    "text": "Static typestate analysis: every call terminator that can run caller-supplied code (closure calls, Clone/Default/Iterator::next/SeqAccess on generic types, generic drops, and crate functions that transitively contain one) is visited with the abstract ownership state at that point - in consumer closures every ptr::read-duplicated element has already been excluded from its owner, in builder closures/loops a written slot is already counted and never counted before written; each position is a field of a tracked owner whose storage the slots iterate, and drop elaboration drops that owner on the unwind path of the driving call (followed through drop flags); raw element writes outside closures are counted by a live owner before any later foreign call; helper-function models are verified against the helpers' bodies. This quantifies over every panic point because unwind edges are explicit in MIR; no panic is injected. It found the GenericArrayIter::clone leak (fixed, see known_findings.json).",
+    "design_ref": "DESIGN.md §3 C04",
+    "note": TRUST + " Overflow checks on positions are not treated as foreign code; a panic while dropping the caller's closure object itself is outside the property's quantifier.",
+}
+CHECKS["C05"] = {
+    "technique": "range-owner typestate: symbolic disjointness of the destroyed range and the owner's claimed range at every drop_in_place in &mut self methods; Drop-range extraction",
+    "text": "Static analysis: the owners' Drop ranges are extracted symbolically from their Drop impls (and shown to be [0,position) / [position,N) / [index,index_back) of storage without drop glue); in every &mut self method of such a type, at each drop_in_place call the field values stored so far make the owner's claimed range provably disjoint from the destroyed range (exclude-before-destroy), so a destructor that unwinds cannot cause the owner's Drop to release the range again; by-value methods (count, last) only call &mut-self primitives and drop self once. Universally quantified over n, positions and which element panics. It found the nth / nth_back double drop (fixed, see known_findings.json).",
+    "design_ref": "DESIGN.md §3 C05",
+    "note": TRUST + " core's slice drop_in_place itself never drops an element twice when one destructor unwinds (trusted). Leaks after an unwinding destructor are allowed by the property.",
+}
+
 NOT_APPLICABLE = {}
 
 PENDING = "check under construction in this round; see DESIGN.md"
